@@ -220,6 +220,7 @@ type State struct {
 	Clock   *Term // last time.Now() value (non-decreasing), nil if unused
 	ClockN  int
 	Crashed bool
+	NoReplay bool // path depends on environment content that native replay cannot reproduce
 	FSOps   int
 	CrashAt int // -1: no crash planned
 	// facts known true (syntactic) for cheap branch decisions
